@@ -204,8 +204,268 @@ def probe_known(ctx, sigs):
         x = np.zeros((2, 0, 2, 6), dtype=np.int64)
         d = da.from_array(x, chunks=((2,), (0,), (2,), (4, 2)))
         attempt("minmax-zero-size", lambda: d.min(axis=(0, 2), keepdims=True).compute(), x.min(axis=(0, 2), keepdims=True))
+    if "swv-nested-wrong-values" in sigs:
+        x = np.array([[0, 1], [2, 3], [4, 0], [1, 2]])
+        d = da.from_array(x, chunks=((4,), (2,)))
+        S = np.lib.stride_tricks.sliding_window_view
+        want = S(S(x, 2, axis=0).min(-1), 2, axis=1).sum(-1)
+        attempt("swv-nested-wrong-values", lambda: da.sliding_window_view(da.sliding_window_view(d, 2, axis=0).min(-1), 2, axis=1).sum(-1).compute(), want)
+    if "broadcast-axis-zero-width-chunk" in sigs:
+        a = np.arange(24).reshape(6, 4)
+        v1 = da.from_array(a, chunks=((3, 2, 1), (1, 3)))
+        attempt("broadcast-axis-zero-width-chunk", lambda: da.maximum(v1[:, :-2:2], v1).compute(), np.maximum(a[:, :-2:2], a))
     if "slice-through-generic-blockwise" in sigs:
         x = np.arange(10)
         d = da.from_array(x, chunks=5)
         want = np.concatenate([np.cumsum(x[:5]), np.cumsum(x[5:])])[::-1]
         attempt("slice-through-generic-blockwise", lambda: d.map_blocks(lambda b: np.cumsum(b, axis=0), dtype=int)[::-1].compute(), want)
+
+
+# ----------------------------------------------------------------- Lean ex2.* encoding (phase 3)
+
+_BLOCK_FN2 = {"affine": "eaffine3", "sq": "esq", "neg": "eneg", "zzz_scale": "escale5", "aaa_shift": "eshift4"}
+
+
+def _chunks_ll(chunks):
+    return [[int(c) for c in ax] for ax in chunks]
+
+
+def _known(chunks):
+    return not any(isinstance(c, float) and np.isnan(c) for ax in chunks for c in ax)
+
+
+def _swv_intermediate_chunks(arr):
+    """Chunks of the array the overlap plan of `sliding_window_view(...).<reduce>(-1)` works on: the
+    input of the `OverlapInternal` below the `SlidingWindowView` node of the RAW expression (what
+    `sliding_window_view` rechunks its argument to).  None when the tree does not look like that."""
+    try:
+        e = arr.expr
+        node = e
+        for _ in range(3):
+            if type(node).__name__ == "SlidingWindowView":
+                break
+            deps = node.dependencies()
+            if len(deps) != 1:
+                return None
+            node = deps[0]
+        if type(node).__name__ != "SlidingWindowView":
+            return None
+        ov = node.dependencies()
+        if len(ov) != 1 or type(ov[0]).__name__ != "OverlapInternal":
+            return None
+        inp = ov[0].dependencies()
+        if len(inp) != 1:
+            return None
+        ch = inp[0].chunks
+        return _chunks_ll(ch) if _known(ch) else None
+    except Exception:  # noqa: BLE001
+        return None
+
+
+def encode2(prog, shapes, real=None, stats=None):
+    """Encode a DSL program as one `ex2.*` program token (lean/DaskArrayModel/Drv/Expr2.lean), or None
+    when some op is outside the second-layer mini-language.  Superset of `encode`: additionally
+    broadcasting binaries, integer-list `take`, sliding-window reductions (overlap plan), `clip`,
+    `broadcast_to`, elementwise `map_blocks`, `None` / `Ellipsis` in basic indices, n-axis `expand_dims`.
+
+    `shapes`: name -> NumPy shape.  `real`: name -> the dask arrays of the built program; when given,
+    the RESULT of the implementation's own chunk decisions that the model does not make is taken from it
+    and written into the program as explicit `rechunk` steps: implicit chunk unification of
+    binary / concatenate / stack / diff operands (C17's subject) and the intermediate chunking
+    `sliding_window_view` rechunks to (float heuristics); `broadcast_to` takes its declared chunks from it.
+    `stats` (dict) counts those uses."""
+    pos = {}
+    steps = []
+
+    def note(k):
+        if stats is not None:
+            stats[k] = stats.get(k, 0) + 1
+
+    def emit(s):
+        steps.append(s)
+        return len(steps) - 1
+
+    def rechunk_to(k, have, want):
+        if [list(map(int, c)) for c in have] == [list(map(int, c)) for c in want]:
+            return k
+        note("chunks_from_impl")
+        return emit(f"rechunk~{k}~{_f_ll(want)}")
+
+    for st in prog:
+        op = st["op"]
+        names = st.get("args", [])
+        a = [pos.get(x) for x in names]
+        if any(v is None for v in a):
+            return None
+        out = st["out"]
+        r = real.get(out) if real is not None else None
+        if r is not None and not _known(r.chunks):
+            return None
+        if op == "src":
+            k = emit(f"src~{_f_l(st['shape'])}~{_f_ll(st['chunks'])}~{st.get('mul', 1)}~{st.get('off', 0)}~{st.get('mod', 1 << 40)}")
+        elif op in P.UNARY:
+            k = emit(f"map~{op}~{a[0]}")
+        elif op == "clip":
+            k = emit(f"clip~{a[0]}~{int(st['lo'])}~{int(st['hi'])}")
+        elif op in P.BINARY:
+            ks = list(a)
+            if real is not None:
+                for j, nm in enumerate(names):
+                    x = real[nm]
+                    if not _known(x.chunks):
+                        return None
+                    want = []
+                    for d, (n, c) in enumerate(zip(x.shape, x.chunks)):
+                        t = r.ndim - x.ndim + d
+                        want.append(list(r.chunks[t]) if n == r.shape[t] else list(c))
+                    ks[j] = rechunk_to(ks[j], x.chunks, want)
+            k = emit(f"zipb~{op}~{ks[0]}~{ks[1]}")
+        elif op == "getitem":
+            rank = len(shapes[names[0]])
+            idx = list(P._dec_index(st["index"]))
+            if sum(1 for i in idx if i is Ellipsis) > 1:
+                return None
+            consuming = sum(1 for i in idx if i is not None and i is not Ellipsis)
+            if consuming > rank:
+                return None
+            if any(i is Ellipsis for i in idx):
+                e = next(j for j, i in enumerate(idx) if i is Ellipsis)
+                idx[e:e + 1] = [slice(None)] * (rank - consuming)
+            else:
+                idx = idx + [slice(None)] * (rank - consuming)
+            lists = [j for j, i in enumerate(idx) if isinstance(i, list)]
+            if len(lists) > 1:
+                return None
+            has_int = any(isinstance(i, (int, np.integer)) and not isinstance(i, bool) for i in idx)
+            if lists and has_int:
+                return None  # int and list in one index: NumPy may reorder axes (separate class)
+            where_none = []
+            ints = 0
+            p = 0
+            for i in idx:
+                if i is None:
+                    where_none.append(p - ints)
+                elif isinstance(i, (int, np.integer)):
+                    ints += 1
+                p += 1
+            core = [i for i in idx if i is not None]
+            lst_axis = None
+            lst = None
+            items = []
+            for ax, i in enumerate(core):
+                if isinstance(i, list):
+                    if len(i) == 0:
+                        items.append("0:0:1")  # `slice_wrap_lists`: an empty list is the slice 0:0:1
+                    else:
+                        lst_axis, lst = ax, i
+                        items.append("N:N:N")
+                elif isinstance(i, slice):
+                    items.append(":".join("N" if v is None else str(int(v)) for v in (i.start, i.stop, i.step)))
+                else:
+                    items.append(str(int(i)))
+            k = a[0]
+            if any(t != "N:N:N" for t in items) or (lst is None and not where_none):
+                k = emit(f"slice~{k}~{'|'.join(items) if items else '_'}")
+            if lst is not None:
+                k = emit(f"take~{k}~{lst_axis}~{_f_l(lst)}")
+            for ax in where_none:
+                k = emit(f"expand~{k}~{ax}")
+        elif op == "transpose":
+            k = emit(f"transpose~{a[0]}~{_f_l(st['axes'])}")
+        elif op == "rechunk":
+            k = emit(f"rechunk~{a[0]}~{_f_ll(st['chunks'])}")
+        elif op == "concatenate":
+            ks = list(a)
+            nms = list(names)
+            sizes = [int(np.prod(shapes[n])) for n in nms]
+            if any(s == 0 for s in sizes) and not all(s == 0 for s in sizes):
+                keep = [j for j, s in enumerate(sizes) if s]  # `concatenate` drops empty operands
+                ks = [ks[j] for j in keep]
+                nms = [nms[j] for j in keep]
+            if len(ks) == 1:
+                pos[out] = ks[0]
+                continue
+            nd = len(shapes[nms[0]])
+            axis = st["axis"] + nd if st["axis"] < 0 else st["axis"]
+            if real is not None:
+                for j, nm in enumerate(nms):
+                    x = real[nm]
+                    if not _known(x.chunks):
+                        return None
+                    want = [list(x.chunks[d]) if d == axis else list(r.chunks[d]) for d in range(nd)]
+                    ks[j] = rechunk_to(ks[j], x.chunks, want)
+            k = emit(f"concat~{axis}~{_f_l(ks)}")
+        elif op == "stack":
+            ks = list(a)
+            nd = len(shapes[names[0]])
+            axis = st["axis"] + nd + 1 if st["axis"] < 0 else st["axis"]
+            if real is not None:
+                want = [list(c) for d, c in enumerate(r.chunks) if d != axis]
+                for j, nm in enumerate(names):
+                    x = real[nm]
+                    if not _known(x.chunks):
+                        return None
+                    ks[j] = rechunk_to(ks[j], x.chunks, want)
+            k = emit(f"stack~{axis}~{_f_l(ks)}")
+        elif op == "reduce":
+            ax = st["axis"]
+            axs = "N" if ax is None else _f_l(ax if isinstance(ax, list) else [ax])
+            se = "N" if st.get("split_every") is None else str(st["split_every"])
+            k = emit(f"reduce~{st['fn']}~{a[0]}~{axs}~{1 if st['keepdims'] else 0}~{se}")
+        elif op == "flip":
+            k = emit(f"flip~{a[0]}~{st['axis']}")
+        elif op == "expand_dims":
+            axes = st["axis"] if isinstance(st["axis"], list) else [st["axis"]]
+            nd = len(shapes[names[0]]) + len(axes)
+            axes = sorted(x + nd if x < 0 else x for x in axes)
+            k = a[0]
+            for ax in axes:
+                k = emit(f"expand~{k}~{ax}")
+        elif op == "cumsum":
+            if st.get("method", "sequential") != "sequential":
+                return None
+            k = emit(f"cumsum~{a[0]}~{st['axis']}")
+        elif op == "squeeze":
+            k = emit(f"squeeze~{a[0]}~{st['axis']}")
+        elif op == "roll":
+            k = emit(f"roll~{a[0]}~{int(st['shift'])}~{st['axis']}")
+        elif op == "diff":
+            if real is not None:
+                note("chunks_from_impl")
+                k = emit(f"diff~{a[0]}~{st['axis']}~{_f_ll(_chunks_ll(r.chunks))}")
+            else:
+                k = emit(f"diff~{a[0]}~{st['axis']}")
+        elif op == "broadcast_to":
+            if r is None:
+                return None
+            k = emit(f"broadcast~{a[0]}~{_f_l(st['shape'])}~{_f_ll(_chunks_ll(r.chunks))}")
+        elif op == "map_blocks":
+            fn = _BLOCK_FN2.get(st["fn"])
+            if fn is None:
+                return None
+            k = emit(f"mapblocks~{fn}~{a[0]}")
+        elif op == "swv_reduce":
+            if r is None or st["fn"] not in ("sum", "max", "min"):
+                return None
+            inter = _swv_intermediate_chunks(r)
+            if inter is None:
+                return None
+            x = real[names[0]]
+            if not _known(x.chunks):
+                return None
+            nd = len(shapes[names[0]])
+            axis = st["axis"] + nd if st["axis"] < 0 else st["axis"]
+            kk = rechunk_to(a[0], x.chunks, inter)
+            k = emit(f"swv~{st['fn']}~{kk}~{int(st['window'])}~{axis}")
+        else:
+            return None
+        pos[out] = k
+    if not steps:
+        return None
+    root = pos[prog[-1]["out"]]
+    if root != len(steps) - 1:
+        # the result must be the last step: re-emit it through a no-op (rank-preserving) step
+        # (only when a trailing concatenate collapsed to one of its operands)
+        sh = shapes[prog[-1]["out"]]
+        steps.append(f"slice~{root}~{'|'.join(['N:N:N'] * len(sh)) if len(sh) else '_'}")
+    return ";".join(steps)
